@@ -23,7 +23,7 @@
 EXTENDS Integers, Sequences, FiniteSets, TLC, Json, SequencesExt, IOUtils
 
 CONSTANTS NrSet, NtSet, Ops, EmitTables,
-          FIXED      \* repaired defects: subset of {"F19"} (F19: the give smoothers sweep sequentially unless ntheta % 4 = 0)
+          FIXED      \* repaired defects: subset of {"F19", "F21"} (F19: the give smoothers sweep sequentially unless ntheta % 4 = 0)
 VARIABLES s      \* [op, nr, nt, nc, dir]
 vars == <<s>>
 
@@ -122,7 +122,9 @@ SmootherGiveRegion ==
      Lp(FALSE, {GSolveR(t) : t \in Pass(1, s.nt, 2)}) >>
 
 \* ExtrapolatedSmootherTake::extrapolatedSmoothing has the schedule of SmootherTake::smoothing (it relaxes fewer unknowns per line)
-Region == CASE s.op = "residualGive" -> ResidualRegion
+\* F21: without a circle section the innermost nodes belong to the radial lines and couple across the origin to the opposite
+\* line, which the 3-colouring does not separate; the repaired code sweeps sequentially then
+Region == CASE s.op = "residualGive" -> IF "F21" \in FIXED /\ s.nc = 0 /\ ~s.dir THEN <<>> ELSE ResidualRegion
             [] s.op = "residualTake" -> ResidualTakeRegion
             [] s.op \in {"smootherTake", "xsmootherTake"} -> SmootherRegion
             [] s.op = "smootherGive" -> IF "F19" \in FIXED /\ s.nt % 4 # 0 THEN <<>> ELSE SmootherGiveRegion
@@ -147,8 +149,9 @@ AllCirclesOnce == s.op \in {"smootherTake", "xsmootherTake"} =>
 \* the shapes: the box NrSet x NtSet x 2..9 circles x boundary mode, or exactly the shapes listed in the file IOEnv.ZSHAPES
 ShapeList == IF "ZSHAPES" \in DOMAIN IOEnv THEN ndJsonDeserialize(IOEnv.ZSHAPES) ELSE <<>>
 Init == IF ShapeList = <<>>
-        THEN \E op \in Ops, nr \in NrSet, nt \in NtSet, nc \in 2..9, dir \in BOOLEAN :
+        THEN \E op \in Ops, nr \in NrSet, nt \in NtSet, nc \in 0..9, dir \in BOOLEAN :
                /\ nc <= nr - 3
+               /\ (nc < 2 => op \in {"residualGive", "residualTake"})      \* the smoothers need two circles, the residuals none
                /\ s = [op |-> op, nr |-> nr, nt |-> nt, nc |-> nc, dir |-> dir]
         ELSE \E op \in Ops, k \in 1..Len(ShapeList) :
                s = [op |-> op, nr |-> ShapeList[k].nr, nt |-> ShapeList[k].nt, nc |-> ShapeList[k].nc, dir |-> ShapeList[k].dir # 0]
